@@ -84,6 +84,9 @@ def forward_variants(net, rows, shape=None):
         "fortran": lambda: np.asfortranarray(x),
         "noncontiguous_view": lambda: np.repeat(x, 2, axis=x.ndim - 1)[..., ::2],
         "readonly": lambda: (lambda a: (a.setflags(write=False), a)[1])(x.copy()),
+        # a bool array whose True bytes are 0xFF / 0x02 (made by viewing a uint8 mask as bool): numpy treats it as the same array
+        "true_byte_255": lambda: (x.astype(np.uint8) * 255).view(np.bool_),
+        "true_byte_2": lambda: (x.astype(np.uint8) * 2).view(np.bool_),
     }
     for name, mk in variants.items():
         try:
